@@ -27,6 +27,7 @@ class MemoryPool;
 ///
 class EratBig : public Wheel210_t
 {
+  PRIMESIEVE_VERIF_FRIEND
 public:
   void init(uint64_t, uint64_t, uint64_t, MemoryPool&);
   NOINLINE void crossOff(Vector<uint8_t>& sieve);
